@@ -418,3 +418,12 @@ KEEP += [
                     (P, "        let mut joints = *joints; \n        // Adjusting coupled joint based on driven joint in forward kinematics\n        joints[self.coupled] -= self.scaling * joints[self.driven]; \n        self.robot.forward_with_joint_poses(&joints)", "        self.robot.forward_with_joint_poses(&self.decoupled(joints))", False)],
      None, ['C16'], 'the forward pre-map of both forward methods extracted into one helper'),
 ]
+
+KT = 'src/kinematic_traits.rs'
+MUTANTS += [
+    ('M81', C, "const TWO_PI: f64 = 2.0 * PI;", "const TWO_PI: f64 = 6.2831;", 'C07', None, 'TWO_PI truncated to four decimals in the membership test'),
+    ('M82', K, "const SINGULARITY_ANGLE_THR: f64 = 0.01 * PI / 180.0;", "const SINGULARITY_ANGLE_THR: f64 = 0.01;", 'C05', None, 'singularity band 0.01 rad instead of 0.01 degrees'),
+    ('M83', KT, "pub const ENV_START_IDX: usize = 1000;", "pub const ENV_START_IDX: usize = 100;", 'C10', None, 'environment indices start at the tool index'),
+    ('M85', CO, "pub const TOUCH_ONLY: f32 = 0.0;", "pub const TOUCH_ONLY: f32 = 0.001;", 'C10', None, 'touch-only distance 1 mm'),
+    ('M86', K, "const ANGULAR_TOLERANCE: f64 = 1E-6;", "const ANGULAR_TOLERANCE: f64 = 1E-5;", 'C01', None, 'angular tolerance 10 microradians'),
+]
